@@ -5,7 +5,7 @@
 From Coq Require Import String List NArith Bool Lia ZifyN ZifyNat ZifyBool.
 From J5V.lib Require Import Outcome Corr.
 From J5V.model Require Import J5sAst Desc J5sWalk J5sLink J5sConvert J5sContract J5sValid J5sEdit.
-From J5V.proofs Require Import J5sProofs J5sContractProofs J5sLinkProofs J5sEditProofs.
+From J5V.proofs Require Import J5sProofs J5sContractProofs J5sLinkProofs J5sEditProofs J5sResolveProofs.
 Import ListNotations.
 Local Open Scope N_scope.
 
@@ -661,4 +661,138 @@ Proof.
   induction es as [|e r IH]; intros f H; cbn [fold_left].
   - apply file_src_ext_refl.
   - destruct H as [H1 H2]. eapply file_src_ext_trans; [apply edit_file_ext; exact H1|apply IH; exact H2].
+Qed.
+
+(* ================================================================== the environment only grows *)
+(* The hypothesis [env_le] of the embedding theorem holds for bundles edited by appends, as
+   long as the exported names of every package stay distinct (part of validity). *)
+Lemma lookup_last_nomatch name l acc :
+  (forall t, In t l -> tr_name t <> name) -> lookup_last name l acc = acc.
+Proof.
+  revert acc. induction l as [|x r IH]; intros acc H; cbn; [reflexivity|].
+  rewrite IH by (intros t Ht; apply H; right; exact Ht).
+  destruct (str_eqb (tr_name x) name) eqn:E; [|reflexivity].
+  apply str_eqb_eq in E. exfalso. apply (H x (or_introl eq_refl) E).
+Qed.
+
+Lemma distinct_cons x l : J5sValid.distinct (x :: l) = true -> ~ In x l /\ J5sValid.distinct l = true.
+Proof.
+  cbn. intros H. apply andb_true_iff in H. destruct H as [H1 H2]. split; [|exact H2].
+  intros Hin. apply negb_true_iff in H1. assert (existsb (str_eqb x) l = true).
+  { apply existsb_exists. exists x. split; [exact Hin|apply str_eqb_refl]. }
+  congruence.
+Qed.
+
+Lemma lookup_last_distinct l : forall acc t,
+  J5sValid.distinct (map tr_name l) = true -> In t l -> lookup_last (tr_name t) l acc = Some t.
+Proof.
+  induction l as [|x r IH]; intros acc t Hd Hin; [destruct Hin|].
+  cbn [map] in Hd. apply distinct_cons in Hd. destruct Hd as [Hn Hd]. cbn [lookup_last].
+  destruct Hin as [<-|Hin].
+  - rewrite str_eqb_refl. apply lookup_last_nomatch. intros t Ht E. apply Hn. rewrite <- E. apply in_map. exact Ht.
+  - apply IH; assumption.
+Qed.
+
+Definition exports_le (ex ex' : str -> option (list typeref)) : Prop :=
+  forall p l, ex p = Some l -> exists l', ex' p = Some l' /\ incl l l' /\ J5sValid.distinct (map tr_name l') = true.
+
+Theorem env_le_of_exports this im ex ex' :
+  exports_le ex ex' -> env_le (mkEnv this im ex) (mkEnv this im ex').
+Proof.
+  intros Hle r t H. unfold resolve in *. cbn [ev_this ev_imports ev_exports] in *.
+  assert (Hlk : forall pkg,
+    match ex pkg with
+    | Some l => match lookup_last (r_name r) l None with Some t0 => Ok t0 | None => Err "type not found" end
+    | None => Err "package not loaded"
+    end = Ok t ->
+    match ex' pkg with
+    | Some l => match lookup_last (r_name r) l None with Some t0 => Ok t0 | None => Err "type not found" end
+    | None => Err "package not loaded"
+    end = Ok t).
+  { intros pkg Hp. destruct (ex pkg) as [l|] eqn:El; [|discriminate].
+    destruct (lookup_last (r_name r) l None) as [t0|] eqn:Ek; [|discriminate]. inversion Hp. subst t0.
+    destruct (lookup_last_sound _ _ _ _ Ek) as [Hn|[Hi Hn]]; [discriminate|].
+    destruct (Hle _ _ El) as (l' & El' & Hinc & Hd). rewrite El'. rewrite <- Hn.
+    rewrite (lookup_last_distinct l' None t Hd (Hinc _ Hi)). reflexivity. }
+  destruct ((match r_pkg r with [] => true | _ => false end) || str_eqb (r_pkg r) this); [apply Hlk; exact H|].
+  destruct (implicit_ref implicit_table (r_pkg r) (r_name r)); [exact H|].
+  destruct (assoc (r_pkg r) im) as [full|]; [|exact H].
+  destruct (implicit_ref implicit_table full (r_name r)); [exact H|]. apply Hlk. exact H.
+Qed.
+
+(* exports of a source file extended by appends include the old ones *)
+Section Exports.
+Variable camel : str -> str.
+
+Lemma exp_props_app pkg file path x y :
+  exp_props camel pkg file path (papp x y) = exp_props camel pkg file path x ++ exp_props camel pkg file path y.
+Proof. induction x as [|p r IH]; cbn; [reflexivity|]. rewrite IH, app_assoc. reflexivity. Qed.
+
+Lemma exp_element_ext pkg file e e' :
+  element_ext e e' -> incl (exp_element camel pkg file e) (exp_element camel pkg file e').
+Proof.
+  intros H. destruct H as [nm ps x subs|nm ps x subs|en|nm pfx opts x Hne|nm base ms ms' HF|t t' Ht];
+    cbn [exp_element exp_nested]; try apply incl_refl.
+  - rewrite exp_props_app. intros t [<-|Hin]; [left; reflexivity|right].
+    apply in_app_or in Hin. apply in_or_app. destruct Hin as [Hin|Hin]; [left; apply in_or_app; left; exact Hin|right; exact Hin].
+  - rewrite exp_props_app. intros t [<-|Hin]; [left; reflexivity|right].
+    apply in_app_or in Hin. apply in_or_app. destruct Hin as [Hin|Hin]; [left; apply in_or_app; left; exact Hin|right; exact Hin].
+Qed.
+
+Lemma exp_file_ext f f' :
+  file_src_ext f f' -> incl (exp_bfile camel (BJ f)) (exp_bfile camel (BJ f')).
+Proof.
+  intros (Hd & Hb & Hi & els1 & extra & HF & Hels). cbn [exp_bfile].
+  assert (Hpkg : j5s_pkg f' = j5s_pkg f) by (unfold j5s_pkg; rewrite Hd; reflexivity).
+  assert (Hmain : main_proto_path f' = main_proto_path f) by (unfold main_proto_path, j5s_path; rewrite Hd, Hb; reflexivity).
+  rewrite Hpkg, Hmain, Hels, flat_map_app. apply incl_appl. clear Hels.
+  induction HF as [|e e' r r' He Hr IH]; cbn [flat_map]; [apply incl_refl|].
+  apply incl_app; [apply incl_appl; apply exp_element_ext; exact He|apply incl_appr; exact IH].
+Qed.
+
+End Exports.
+
+Lemma in_update_nth {A} (g : A -> A) l : forall k x,
+  In x l -> In x (update_nth k g l) \/ (nth_error l k = Some x /\ In (g x) (update_nth k g l)).
+Proof.
+  induction l as [|y r IH]; intros k x Hin; [destruct Hin|]. destruct k; cbn [update_nth nth_error].
+  - destruct Hin as [<-|Hin]; [right; split; [reflexivity|left; reflexivity]|left; right; exact Hin].
+  - destruct Hin as [<-|Hin]; [left; left; reflexivity|].
+    destruct (IH k x Hin) as [H|[H1 H2]]; [left; right; exact H|right; split; [exact H1|right; exact H2]].
+Qed.
+
+Lemma in_pkg_files_iff bd p x : In x (pkg_files bd p) <-> In x bd /\ bfile_pkg x = p.
+Proof.
+  unfold pkg_files. rewrite in_sort_by, filter_In. split; intros [H1 H2]; split; try assumption.
+  - apply str_eqb_eq. exact H2.
+  - apply str_eqb_eq. exact H2.
+Qed.
+
+(* a bundle in which one source file was extended by appends *)
+Theorem exports_le_of_edit camel bd k f f' :
+  nth_error bd k = Some (BJ f) -> file_src_ext f f' ->
+  (forall p l, pkg_exports camel (update_nth k (fun _ => BJ f') bd) p = Some l ->
+               J5sValid.distinct (map tr_name l) = true) ->
+  exports_le (pkg_exports camel bd) (pkg_exports camel (update_nth k (fun _ => BJ f') bd)).
+Proof.
+  intros Hk Hext Hdist p l Hl. set (bd' := update_nth k (fun _ => BJ f') bd) in *.
+  assert (Hpkg : bfile_pkg (BJ f') = bfile_pkg (BJ f)).
+  { destruct Hext as (Hd & _). cbn. unfold j5s_pkg. rewrite Hd. reflexivity. }
+  assert (Hfiles : forall x, In x (pkg_files bd p) -> exists x', In x' (pkg_files bd' p) /\
+                                                      incl (exp_bfile camel x) (exp_bfile camel x')).
+  { intros x Hx. apply in_pkg_files_iff in Hx. destruct Hx as [Hin Hp].
+    destruct (in_update_nth (fun _ => BJ f') bd k x Hin) as [H|[H1 H2]].
+    - exists x. split; [apply in_pkg_files_iff; split; assumption|apply incl_refl].
+    - rewrite Hk in H1. inversion H1. subst x. exists (BJ f'). split.
+      + apply in_pkg_files_iff. split; [exact H2|rewrite Hpkg; exact Hp].
+      + apply exp_file_ext. exact Hext. }
+  unfold pkg_exports in Hl |- *.
+  destruct (pkg_files bd p) as [|x0 r0] eqn:E; [discriminate|]. inversion Hl. subst l. clear Hl.
+  destruct (Hfiles x0 (or_introl eq_refl)) as (x0' & Hx0' & _).
+  destruct (pkg_files bd' p) as [|y0 s0] eqn:E'; [destruct Hx0'|].
+  eexists. split; [reflexivity|]. split.
+  - intros t Ht. change (In t (flat_map (exp_bfile camel) (x0 :: r0))) in Ht.
+    apply in_flat_map in Ht. destruct Ht as (x & Hx & Ht).
+    destruct (Hfiles x Hx) as (x' & Hx' & Hinc). apply in_flat_map. exists x'. split; [exact Hx'|apply Hinc; exact Ht].
+  - apply (Hdist p). unfold pkg_exports. fold bd'. rewrite E'. reflexivity.
 Qed.
